@@ -18,6 +18,26 @@ CLAIMED = {
    text="Exploration by execution with exhaustive sub-spaces: every product, inverse, log and exp of all six fields (17.9M products) is compared with shift-and-xor arithmetic; RS codes with n<=20 get every single and double error position, long codes (n up to |F|-1, r up to n-1) get 0/1/t-1/t errors at random, extreme and burst positions. Held-on-what-was-observed for the sampled data words and magnitudes.",
    note="Trusted base: harness/ref/gf (40 lines), harness/ref/rs (long division, Horner syndromes), anchored on ISO 18004 Annex I and the ISO 16022 '123456' example. More than floor(r/2) errors are never injected.",
    design="5/C04"),
+ "C01": dict(
+   technique="runtime round-trip monitor: library writer -> library reader on generated inputs, with 'fits' decided by an independent capacity model (qrref); identity oracle on text, format and EC level over both decode paths",
+   text="Exploration by execution: all 640 (version, level, mode) capacity boundaries (capacity, capacity-1, forced and automatic version, rotating masks) plus seeded random classes (digits, 45-set, all byte values under ISO-8859-1, unhinted UTF-8 with 1-4 byte sequences, kanji mode, every registered charset/alias with text from its repertoire), each through encoder-matrix->decoder and writer-image->pure-barcode reader at random sizes and margins. Held-on-what-was-observed.",
+   note="Trusted base: qrref capacities (ISO 18004 tables typed independently, anchored on published figures), x/text codecs for 'representable'. Payloads are chosen so that the mode selection is unambiguous.",
+   design="5/C01"),
+ "C07": dict(
+   technique="runtime reference-model monitor: library encoder output compared module for module with an independent ISO 18004 construction (qrref), library decoder run on reference-built symbols; decoder tables compared with independently typed/computed tables",
+   text="All 1280 (version, level, mask) configurations are enumerated completely, each with N seeded payloads over the four modes; the library matrix must equal the reference construction (function patterns, BCH format/version words, block structure, RS parity, interleave, zig-zag, mask) in every module, and the library decoder must read the reference-built symbol back (text, raw data codewords, level). The 40 version entries, 160 block structures, 32 format and 34 version words are compared directly. Payload space is sampled.",
+   note="Trusted base: harness/ref/qrref (+ ref/gf, ref/rs), validated against ISO 18004 Annex I and published capacities at start-up. Automatic mask choice is not compared (N3 rule ambiguous in the standard).",
+   design="5/C07"),
+ "C13": dict(
+   technique="runtime reference-model monitor: version / symbol size chosen by the library compared with the minimum computed from independently typed capacity tables (qrref, dmref)",
+   text="QR: every per-version capacity boundary for all modes and levels (automatic version, forced exact / too small / larger) in the quick tier and every content length 1..capacity(40)+1 for all 16 (mode, level) pairs in the thorough tier. Data Matrix: every codeword count 1..1559 x 3 shapes through SymbolInfo_Lookup and through the writer's 0x0 output, and all 900 (min,max) size pairs (+-1 perturbations). Published figures (7089/4296/2953/1817, 1558) asserted on both reference and library.",
+   note="Trusted base: qrref/dmref tables. Data Matrix writer path uses digit strings (2n digits = n ASCII codewords).",
+   design="5/C13"),
+ "C15": dict(
+   technique="runtime monitor: hinted write->read round trips with the ECI header confirmed by an independent parser of the raw codewords; registry invariants read through a tag-guarded hook; crafted bit streams for every ECI number",
+   text="Every registered name and alias with every representable single-byte code point (exhaustive), sampled multi-byte ranges, refusal of non-representable text, unhinted UTF-8 with adversarial byte statistics, ECI numbers 0..1023 + samples (thorough: all 0..999999) in every designator length form, decode-side CHARACTER_SET hints, and the registry's value/name/alias/charset consistency.",
+   note="Trusted base: x/text codecs define the repertoires; the AIM designator table typed in harness/worker/charset_util.go; qrref.ParseDataCodewords. Don't-cares per DESIGN C15.",
+   design="5/C15"),
 }
 
 PENDING_REASON = "monitor not yet built in this round (designed in DESIGN.md section 5; build order in section 8) - not claimed until its check runs clean"
